@@ -113,6 +113,12 @@ func c06Scenario(maxUnconf, maxBlockTxs int, subsets [][]int, disjoint bool) {
 		bs = append(bs, b)
 		btxs = append(btxs, b.tx)
 	}
+	// the node may be catching up when the block arrives (after a reconnection: the mempool and the
+	// tracked transactions are still there)
+	if verifrt.Choose("catching-up-when-the-block-arrives", 2) == 1 {
+		node.state.ClearInSync()
+		verifrt.Reach("C06.cancel.not-in-sync")
+	}
 	heightBefore := node.blocks.LastHeight()
 	block := vkBlock(*node.blocks.LastHash(), 1, btxs)
 	var berr error
